@@ -389,3 +389,34 @@ M('C05-twin-helper-method', 'C05', FACE,
 M('C05-twin-reader-accepts-more', 'C05', SB_LOGIN,
   "        if self.successful:\n            self.data = TrailingByteArray.read(file_object)\n        else:\n            self.data = None",
   "        self.data = TrailingByteArray.read(file_object)", expect='silent')
+
+# ---------------------------------------------------------------- C07
+M('C07-keepalive-long-341', 'C07', KEEP, "{'keep_alive_id': Long} if context.protocol_later_eq(339)",
+  "{'keep_alive_id': Long} if context.protocol_later_eq(341)", rule='R07.3')
+M('C07-teleport-id-before-flags', 'C07', PPL,
+  "        {'flags': Byte},\n        {'teleport_id': VarInt} if context.protocol_later_eq(107) else {},",
+  "        {'teleport_id': VarInt} if context.protocol_later_eq(107) else {},\n        {'flags': Byte},", rule='R07.3')
+M('C07-login-uuid-736', 'C07', CB_LOGIN, "{'UUID': UUID if context.protocol_later_eq(707) else String}",
+  "{'UUID': UUID if context.protocol_later_eq(736) else String}", rule='R07.3')
+M('C07-chat-sender-736', 'C07', CB_PLAY, "{'sender': UUID} if context.protocol_later_eq(718) else {}",
+  "{'sender': UUID} if context.protocol_later_eq(736) else {}", rule='R07.3')
+M('C07-cb-keepalive-rung-756', 'C07', CB_PLAY,
+  "        return 0x21 if context.protocol_later_eq(755) else \\\n               0x1F if context.protocol_later_eq(741) else \\\n               0x20 if context.protocol_later_eq(721)",
+  "        return 0x21 if context.protocol_later_eq(756) else \\\n               0x1F if context.protocol_later_eq(741) else \\\n               0x20 if context.protocol_later_eq(721)",
+  rule='R07.2')
+M('C07-state-playing-3', 'C07', CONN, "STATE_PLAYING = 2", "STATE_PLAYING = 3", rule='R07.4')
+M('C07-handshake-port-varint', 'C07', 'minecraft/networking/packets/serverbound/handshake/__init__.py',
+  "{'server_port': UnsignedShort}", "{'server_port': VarInt}", rule='R07.3')
+M('C07-joingame-seed-before-dimension', 'C07', JOIN,
+  "        {'world_name': String} if context.protocol_later_eq(722) else {},\n        {'hashed_seed': Long} if context.protocol_later_eq(552) else {},\n        {'difficulty': UnsignedByte} if context.protocol_earlier(464) else {},\n        {'max_players':",
+  "        {'hashed_seed': Long} if context.protocol_later_eq(552) else {},\n        {'world_name': String} if context.protocol_later_eq(722) else {},\n        {'difficulty': UnsignedByte} if context.protocol_earlier(464) else {},\n        {'max_players':",
+  rule='R07.3')
+M('C07-sb-chat-id-consistent-shift', 'C07', SB_PLAY,
+  "        return 0x03 if context.protocol_later_eq(755) else \\\n               0x03 if context.protocol_later_eq(464) else \\\n               0x02 if context.protocol_later_eq(389)",
+  "        return 0x03 if context.protocol_later_eq(755) else \\\n               0x03 if context.protocol_later_eq(480) else \\\n               0x02 if context.protocol_later_eq(389)",
+  rule='R07.2')
+M('C07-twin-boundary-between-snapshots', 'C07', CB_PLAY, "{'sender': UUID} if context.protocol_later_eq(718) else {}",
+  "{'sender': UUID} if context.protocol_later_eq(719) else {}", expect='silent')
+M('C07-twin-port-short', 'C07', 'minecraft/networking/packets/serverbound/handshake/__init__.py',
+  "from minecraft.networking.types import (\n    VarInt, String, UnsignedShort\n)",
+  "from minecraft.networking.types import (\n    VarInt, String, Short as UnsignedShort\n)", expect='silent')
